@@ -26,12 +26,20 @@ class Model:
         self.pn_rho = "positive_next_density" in f
         self.pn_w = "positive_next_queue" in f
 
+    def r(self, role):
+        """on a one-link ring the link is its own upstream and downstream neighbour"""
+        if getattr(self.cfg, "selfloop", False) and role in ("UIN", "DOUT"):
+            return "SELF"
+        return role
+
     # ------------------------------------------------------------ variables
     def rho(self, role):
+        role = self.r(role)
         t = V("rho", role)
         return mx(ZERO, t) if self.pi_rho else t
 
     def v(self, role):
+        role = self.r(role)
         t = V("v", role)
         return mx(ZERO, t) if self.pi_v else t
 
@@ -40,6 +48,7 @@ class Model:
         return mx(ZERO, t) if self.pi_w else t
 
     def flow(self, role):
+        role = self.r(role)
         return P.get_flow(self.rho(role), self.v(role), _p(role, "lam"))
 
     # ---------------------------------------------------------- origin flow
@@ -149,7 +158,7 @@ class Model:
         phi = S("phi") if cfg.phi else None
         lanes_drop = None
         if cfg.phi and cfg.d_out == 1 and cfg.d_dest is None:
-            lanes_drop = sub(lam, _p("DOUT", "lam"))
+            lanes_drop = sub(lam, _p(self.r("DOUT"), "lam"))
         v_next = P.step_speed(
             v, v_up, rho, rho_down, Veq, lam, L, S("tau"), S("eta"), S("kappa"), T,
             q_ramp, delta, lanes_drop, phi, _p("SELF", "rho_crit"))
